@@ -15,7 +15,7 @@ KN = {
     ],
     'loops': {0: {
         'iter': 'it',
-        'invariant': [
+        'invariant': MODE_REQ + [
             'wf(board.board)', 'on_board(row as int, col as int)', 'row_0 == row as int', 'col_0 == col as int',
             'appended(old(moves)@, moves@)',
             'forall|i: int| old(moves)@.len() <= i < moves@.len() ==> knight_target_upto(board.board, piece.color, row as int, col as int, #[trigger] moves@[i], move_generation_mode, it.index@)',
@@ -274,7 +274,7 @@ pub proof fn lemma_rays_disjoint(dirs: Seq<(i8, i8)>, d1: int, n1: int, d2: int,
 }
 """
 def slider_ann(D, fname):
-    pre = ['wf(board.board)', 'on_board(row_0, col_0)', 'appended(old(moves)@, moves@)', 'distinct_from(moves@, old(moves)@.len() as int)']
+    pre = MODE_REQ + ['wf(board.board)', 'on_board(row_0, col_0)', 'appended(old(moves)@, moves@)', 'distinct_from(moves@, old(moves)@.len() as int)']
     outer = {
         'iter': 'it',
         'invariant': pre + ['row_0 == row as int', 'col_0 == col as int',
@@ -374,7 +374,7 @@ def pawn_ann():
 
 def king_ann():
     P = "board.board, piece.color, row_0, col_0"
-    inv = lambda i, j: [
+    inv = lambda i, j: MODE_REQ + [
         'wf(board.board)', 'on_board(row_0, col_0)', 'at(board.board, row_0, col_0) == Square::Full(piece)',
         'appended(old(moves)@, moves@)', 'distinct_from(moves@, old(moves)@.len() as int)',
         'forall|k: int| old(moves)@.len() <= k < moves@.len() ==> king_target_upto(%s, #[trigger] moves@[k], move_generation_mode, %s, %s)' % (P, i, j),
